@@ -217,6 +217,7 @@ type opParts struct {
 	signedData string
 	extra      map[string]interface{} // additional top-level members
 	omitDelta  bool
+	omit       []string // top-level members left out altogether
 }
 
 func (o *opParts) request() map[string]interface{} {
@@ -236,6 +237,9 @@ func (o *opParts) request() map[string]interface{} {
 	}
 	for k, v := range o.extra {
 		m[k] = v
+	}
+	for _, k := range o.omit {
+		delete(m, k)
 	}
 	return m
 }
